@@ -842,7 +842,9 @@ def op_set_lists(rng, inp, via="array", malformed=False):
     # row, a missing row stays missing, every other field and the flat content are what the assignment with [] gives
     none_note, none_ok = "", True
     rows_now = inp["rows"]
-    if not malformed and res[0] == "ok" and any(k == 0 for k in lens):
+    from nested_pandas.series import ext_array as _ext
+    monitored = bool(getattr(_ext, "_verif_observers", None))    # C01's born-array monitor demands a list under every present row
+    if not malformed and res[0] == "ok" and any(k == 0 for k in lens) and not monitored:
         lists2 = [None if (k == 0 and rng.random() < 0.8) else l for k, l in zip(lens, lists)]
         value2 = pa.array(lists2, type=lt)
 
